@@ -181,6 +181,7 @@ def combined_offsets(s1: str, s2: str) -> bool:
     pre: len(s1) <= R.N(2) and len(s2) <= R.M(1)
     pre: R.env_int("VP_L1") is None or len(s1) == R.env_int("VP_L1")
     pre: R.env_int("VP_L2") is None or len(s2) == R.env_int("VP_L2")
+    pre: R.scell(s1)
     post: _
     """
     texts = ["q", s1, s2]
@@ -573,7 +574,8 @@ _OFF_Q = ([{"VP_N": 2}] + [{"VP_LEN": 3, "VP_C0": a} for a in range(5)]
           + [{"VP_LEN": 3, "VP_C0": 5, "VP_C1": b} for b in range(6)])
 _OFF_T = ([{"VP_N": 2}] + R.str_cells(4, split1_from=3, split2_from=4, minlen=3))
 # combined_offsets, thorough: all (len(s1), len(s2)) with len(s1) <= 3, len(s2) <= 2 and sum <= 4
-_COMB_T = [{"VP_L1": a, "VP_L2": b} for a in range(4) for b in range(3) if a + b <= 4]
+_COMB_T = ([{"VP_L1": a, "VP_L2": b} for a in range(4) for b in range(3) if a + b <= 3]
+           + [{"VP_L1": a, "VP_L2": 4 - a, "VP_C0": c} for a in (2, 3) for c in range(6)])     # by class of s1[0]
 _SORT_Q = ([{"VP_LEN": 0}, {"VP_LEN": 1}] + [{"VP_LEN": 2, "VP_G0": g} for g in _REAL_MASKS]
            + [{"VP_LEN": 3, "VP_KEY": 0, "VP_G0": g} for g in (0, 8)])
 _SORT_T = ([{"VP_LEN": 0}, {"VP_LEN": 1}] + [{"VP_LEN": 2, "VP_G0": g} for g in range(16)]
